@@ -48,7 +48,7 @@ def case_strategy(draw):
     sched = {}
     for ep in ("load", "trees", "measure", "hist"):
         sched[ep] = {"workers": draw(st.sampled_from([2, 3, 4, K, K + 2, 16])), "tape": draw(st.lists(st.integers(0, 15), min_size=0, max_size=40))}
-    return {"mode": mode, "cfg": cfg, "scene": scene, "opts": opts, "sched": sched, "real_pool": draw(st.integers(0, 19)) == 0}
+    return {"mode": mode, "cfg": cfg, "scene": scene, "opts": opts, "sched": sched, "real_pool": draw(st.integers(0, 19)) == 0, "progress": draw(st.sampled_from([False, False, True]))}
 
 
 def cf_arrays(cfs):
@@ -96,11 +96,16 @@ def tree_summary(catalog):
 
 
 def run_measure(case, cfg, cats, max_workers):
-    import yaw
+    import contextlib
 
-    if case["mode"] == "auto":
-        return yaw.autocorrelate(cfg, cats[0], cats[1], count_rr=case["opts"]["count_rr"], max_workers=max_workers)
-    return yaw.crosscorrelate(cfg, cats[0], cats[1], unk_rand=cats[2], max_workers=max_workers)
+    import yaw
+    from props.c02_creation import quiet_stderr
+
+    progress = bool(case.get("progress")) and max_workers != 1  # the progress display wraps the result iterator
+    with quiet_stderr() if progress else contextlib.nullcontext():
+        if case["mode"] == "auto":
+            return yaw.autocorrelate(cfg, cats[0], cats[1], count_rr=case["opts"]["count_rr"], max_workers=max_workers, progress=progress)
+        return yaw.crosscorrelate(cfg, cats[0], cats[1], unk_rand=cats[2], max_workers=max_workers, progress=progress)
 
 
 def run_case(case):
